@@ -2,6 +2,9 @@
    schedule of any number of actors, and what follows from it. *)
 From LR Require Import lib.Base model.TIndex.
 
+(* the proofs do not look at the value of the repair switch *)
+Opaque gj_releases_failed.
+
 (* ------------------------------------------------------------------ lists, upd, get *)
 
 Lemma nth_error_upd_same ix p f : nth_error (upd ix p f) p = option_map f (nth_error ix p).
@@ -149,6 +152,7 @@ Definition wf (a : actor) : Prop :=
   | CSel => is_visit (a_cur a) = true /\ a_f a = frame0
   | CNext | CFin | CTry _ => is_visit (a_cur a) = true
   | CCb x => is_visit (a_cur a) = true /\ In x (f_vis (a_f a))
+  | CRelF x => is_query (a_cur a) = true
   | CDj x _ false => is_trunc (a_cur a) = true /\ In x (f_vis (a_f a))
   | _ => True
   end.
@@ -593,7 +597,7 @@ Proof.
   - (* CCb *) unfold wf in W. cbn in W. destruct W as (V & Hin). fin. unfold callback. cbn [a_cur a_f].
     destruct cur; try discriminate.
     + (* PVisit *) destruct (opt_is abort (f_n f)); loc I Ha.
-    + (* PQuery *) destruct (opt_is failat (f_n f)); [|destruct (Nat.eqb (S (length (f_res f))) limit)]; loc I Ha.
+    + (* PQuery *) destruct (opt_is failat (f_n f)); [destruct gj_releases_failed|destruct (Nat.eqb (S (length (f_res f))) limit)]; loc I Ha.
     + (* PTrunc *) destruct (mem (tag_of (s_ix s) x) zero).
       * loc I Ha.
       * unfold trunc_cont. cbn [a_cur a_f with_cf f_glob f_n]. destruct (opt_is cancel (f_n f)); loc I Ha.
@@ -674,6 +678,18 @@ Proof.
     + apply (inv_dec s i _ _ [x] I Ha); [exact Logic.I | intros q; hs; lia | reflexivity | reflexivity].
     + apply (inv_local _ _ _ _ I Ha).
       * exact Logic.I.
+      * intros q; hs; lia.
+      * intros q td Hq. assert (Nat.eqb x q = false) as Hne. { apply Nat.eqb_neq. intros ->. congruence. }
+        hs; rewrite Hne; lia.
+      * intros q; cbn; discriminate.
+      * intros q td; cbn; discriminate.
+  - (* CRelF *) unfold wf in W. cbn in W. destruct cur; try discriminate.
+    assert (Hx : 0 < holds {| a_prog := prog; a_cur := PQuery m limit failat; a_ctl := CRelF x; a_f := f; a_lost := lost |} x) by (hs; lia).
+    rewrite (release_ok s i _ x I Ha eq_refl Hx). fin.
+    destruct (get (s_ix s) x) as [td|] eqn:G.
+    + apply (inv_dec s i _ _ [x] I Ha); [unfold wf; cbn; auto | intros q; hs; lia | reflexivity | reflexivity].
+    + apply (inv_local _ _ _ _ I Ha).
+      * unfold wf; cbn; auto.
       * intros q; hs; lia.
       * intros q td Hq. assert (Nat.eqb x q = false) as Hne. { apply Nat.eqb_neq. intros ->. congruence. }
         hs; rewrite Hne; lia.
@@ -811,11 +827,14 @@ Proof.
   - injection E as <- <- <- <-; kill_tac.
   - unfold release in E.
     destruct (get ix x); [destruct (t_excl t); [|destruct (t_readers t <=? 0)%Z]|]; injection E as <- <- <- <-; kill_tac.
+  - unfold release in E.
+    destruct (get ix x); [destruct (t_excl t); [|destruct (t_readers t <=? 0)%Z]|]; injection E as <- <- <- <-; kill_tac.
 Qed.
 
 (* --- balance: what is left at quiescence is exactly what clients lost --- *)
 
-Definition quiet_proc (p : proc) : bool := match p with PQuery _ _ (Some _) => false | _ => true end.
+Definition quiet_proc (p : proc) : bool :=
+  gj_releases_failed || match p with PQuery _ _ (Some _) => false | _ => true end.
 Definition quiet (a : actor) : Prop :=
   forallb quiet_proc (a_prog a) = true /\ quiet_proc (a_cur a) = true /\ a_lost a = [].
 
@@ -829,7 +848,8 @@ Proof.
   assert (QD : forall x g, quiet (dj_done {| a_prog := prog; a_cur := cur; a_ctl := ctl; a_f := f; a_lost := [] |} x g)).
   { intros x g. unfold dj_done, trunc_cont. destruct g; auto. cbn [a_cur]. destruct cur; auto. }
   destruct ctl.
-  - destruct prog as [|p rest]; injection E as <- <- <- <-; auto. cbn in Q1. apply andb_true_iff in Q1. destruct Q1. repeat split; auto.
+  - destruct prog as [|p rest]; injection E as <- <- <- <-; auto.
+    all: try (cbn [forallb] in Q1; apply andb_true_iff in Q1; destruct Q1; repeat split; auto).
   - destruct (acq_tags ix tag create) as [ix0 [| |]]; injection E as <- <- <- <-; auto.
   - destruct (acq_id ix p lock) as [ix0 [| |]]; injection E as <- <- <- <-; auto.
   - injection E as <- <- <- <-; auto.
@@ -839,13 +859,17 @@ Proof.
   - destruct (wacq ix x); injection E as <- <- <- <-; auto.
   - injection E as <- <- <- <-. unfold callback, trunc_cont. cbn [a_cur a_f with_cf].
     destruct cur; auto.
-    + destruct failat; [discriminate|]. cbn [opt_is]. destruct (Nat.eqb (S (length (f_res f))) limit); repeat split; auto.
+    + unfold quiet_proc in Q2. destruct (opt_is failat (f_n f)) eqn:OI.
+      * unfold quiet. cbn [a_prog a_cur a_lost with_cf]. unfold quiet_proc at 2.
+        destruct gj_releases_failed; [repeat split; auto|]. destruct failat; cbn in Q2, OI; discriminate.
+      * destruct (Nat.eqb (S (length (f_res f))) limit); repeat split; auto.
     + destruct (mem (tag_of ix x) zero); repeat split; auto.
   - destruct st; [destruct (lockx ix x) as [ix0 []]| |destruct (unlockx ix x)| |destruct (unlockx ix x)]; injection E as <- <- <- <-; auto.
   - injection E as <- <- <- <-. unfold after_visit. cbn [a_cur]. destruct cur; auto.
   - destruct (f_gl f); injection E as <- <- <- <-; auto.
   - destruct (acq_id ix x true) as [ix0 [| |]]; injection E as <- <- <- <-; auto.
   - injection E as <- <- <- <-; auto.
+  - destruct (release ix x); injection E as <- <- <- <-; auto.
   - destruct (release ix x); injection E as <- <- <- <-; auto.
 Qed.
 
@@ -917,6 +941,7 @@ Proof.
   - unfold acq_id in E. destruct (get ix x) eqn:G; [destruct (t_excl t) eqn:X|]; try discriminate. eauto.
   - discriminate.
   - destruct (release ix x); discriminate.
+  - destruct (release ix x); discriminate.
 Qed.
 
 Lemma astep_halted ix a c ix' a' pn r : astep ix a c = (ix', a', pn, r) -> r = Halted -> finished a = true.
@@ -938,6 +963,7 @@ Proof.
   - destruct (f_gl f); discriminate.
   - destruct (acq_id ix x true) as [ix0 [| |]]; discriminate.
   - discriminate.
+  - destruct (release ix x); discriminate.
   - destruct (release ix x); discriminate.
 Qed.
 
@@ -999,4 +1025,89 @@ Lemma sel_got ix m p : In p (sel ix m) ->
 Proof.
   intros H. destruct (sel_in _ _ _ H) as (td & G & X). split; [eauto|].
   rewrite inc_all_shiftl, get_shiftl, G. cbn. eexists. split; [reflexivity|]. exact X.
+Qed.
+
+(* --- a step that gives an actor one more hold gives it a present, non-exclusive partition --- *)
+
+Lemma got1 ix x td : get ix x = Some td -> t_excl td = false ->
+  exists td', get (shiftl ix 1 [x]) x = Some td' /\ t_excl td' = false.
+Proof. intros G X. rewrite get_shiftl, G. cbn. eexists. split; [reflexivity|exact X]. Qed.
+
+Ltac noinc := let p := fresh "p" in let H := fresh "H" in
+  intros p H; exfalso; revert H; hs; repeat match goal with |- context [if ?b then _ else _] => destruct b end; hs; lia.
+
+Ltac one x p H G X :=
+  intros p H; assert (x = p) as <- by
+    (destruct (Nat.eq_dec x p) as [|Ne]; auto; exfalso; apply Nat.eqb_neq in Ne; revert H; hs; rewrite ?Ne;
+     repeat match goal with |- context [if ?b then _ else _] => destruct b end; hs; rewrite ?Ne; lia);
+  rewrite ?upd_shiftl; apply (got1 _ _ _ G X).
+
+Lemma astep_acq ix a c ix' a' pn r : wf a -> astep ix a c = (ix', a', pn, r) ->
+  forall p, holds a p < holds a' p -> exists td', get ix' p = Some td' /\ t_excl td' = false.
+Proof.
+  intros W E. destruct a as [prog cur ctl f lost]. unfold astep in E. cbn [a_ctl a_prog a_cur a_f a_lost] in E.
+  unfold wf in W. cbn [a_ctl a_cur a_f] in W.
+  destruct ctl.
+  - destruct prog as [|q rest]; injection E as <- <- <- <-; [noinc|]. intros p H. exfalso. revert H. destruct q; hs; lia.
+  - unfold acq_tags in E. destruct (find_tag ix tag) as [x|] eqn:F; [destruct (get ix x) as [td|] eqn:G; [destruct (t_excl td) eqn:X|]|destruct create];
+    injection E as <- <- <- <-; try noinc.
+    + one x p H G X.
+    + intros p H. assert (length ix = p) as <-.
+      { destruct (Nat.eq_dec (length ix) p) as [|Ne]; auto. exfalso. apply Nat.eqb_neq in Ne. revert H. hs. rewrite Ne. lia. }
+      rewrite get_app_new by lia. rewrite Nat.eqb_refl. cbn. eexists. split; reflexivity.
+  - unfold acq_id in E. destruct (get ix p) as [td|] eqn:G; [destruct (t_excl td) eqn:X|]; injection E as <- <- <- <-; try noinc.
+    destruct lock; [|noinc]. one p p0 H G X.
+  - injection E as <- <- <- <-. destruct l; noinc.
+  - destruct l as [|x l]; [injection E as <- <- <- <-; noinc|]. destruct (release ix x); injection E as <- <- <- <-; destruct l; noinc.
+  - destruct W as (V & ->). destruct (p_skip cur) eqn:SK; injection E as <- <- <- <-.
+    + intros p H. assert (In p (sel ix (p_m cur))).
+      { apply cnt_in. revert H. destruct cur; try discriminate; cbn in SK; subst; hs; lia. }
+      apply sel_got. exact H0.
+    + intros p H. exfalso. revert H. destruct cur; try discriminate; cbn in SK; subst; hs; lia.
+  - destruct (pick c (f_rest f)) as [[x rest]|] eqn:P.
+    + pose proof (pick_cnt _ _ _ _ P) as PC. destruct (p_skip cur) eqn:SK.
+      * injection E as <- <- <- <-. intros p H. exfalso. revert H. specialize (PC p). destruct cur; try discriminate; cbn in SK; subst; hs; lia.
+      * unfold wacq in E. destruct (get ix x) as [td|] eqn:G; [destruct (t_excl td) eqn:X|]; injection E as <- <- <- <-.
+        -- intros p H. exfalso. revert H. destruct cur; try discriminate; cbn in SK; subst; hs; lia.
+        -- intros p H. assert (x = p) as <-.
+           { destruct (Nat.eq_dec x p) as [|Ne]; auto. exfalso. apply Nat.eqb_neq in Ne. revert H.
+             destruct cur; try discriminate; cbn in SK; subst; hs; rewrite ?Ne; lia. }
+           rewrite upd_shiftl. apply (got1 _ _ _ G X).
+        -- intros p H. exfalso. revert H. destruct cur; try discriminate; cbn in SK; subst; hs; lia.
+    + injection E as <- <- <- <-. intros p H. exfalso. revert H. destruct cur; try discriminate; hs; lia.
+  - unfold wacq in E. destruct (get ix x) as [td|] eqn:G; [destruct (t_excl td) eqn:X|]; injection E as <- <- <- <-.
+    + noinc.
+    + intros p H. assert (x = p) as <-.
+      { destruct (Nat.eq_dec x p) as [|Ne]; auto. exfalso. apply Nat.eqb_neq in Ne. revert H.
+        destruct cur; try discriminate; hs; try destruct skip; hs; rewrite ?Ne; lia. }
+      rewrite upd_shiftl. apply (got1 _ _ _ G X).
+    + intros p H. exfalso. revert H. destruct cur; try discriminate; hs; lia.
+  - destruct W as (V & Hin). injection E as <- <- <- <-. unfold callback. cbn [a_cur a_f].
+    destruct cur; try discriminate.
+    + destruct (opt_is abort (f_n f)); noinc.
+    + destruct (opt_is failat (f_n f)); [destruct gj_releases_failed|destruct (Nat.eqb (S (length (f_res f))) limit)]; noinc.
+    + destruct (mem (tag_of ix x) zero); [noinc|]. unfold trunc_cont. cbn [a_cur a_f with_cf f_glob f_n]. destruct (opt_is cancel (f_n f)); noinc.
+  - assert (DONE : forall p, ~ holds {| a_prog := prog; a_cur := cur; a_ctl := CDj x st glob; a_f := f; a_lost := lost |} p <
+                              holds (dj_done {| a_prog := prog; a_cur := cur; a_ctl := CDj x st glob; a_f := f; a_lost := lost |} x glob) p).
+    { intros p. unfold dj_done. destruct glob; [hs; lia|]. destruct W as (T & _). destruct cur; try discriminate.
+      unfold trunc_cont. cbn [a_cur a_f]. destruct (opt_is cancel (f_n f)); hs; lia. }
+    assert (SAME : forall st1 p, ~ holds {| a_prog := prog; a_cur := cur; a_ctl := CDj x st glob; a_f := f; a_lost := lost |} p <
+                              holds {| a_prog := prog; a_cur := cur; a_ctl := CDj x st1 glob; a_f := f; a_lost := lost |} p).
+    { intros st1 p. hs. destruct glob; lia. }
+    destruct st.
+    + destruct (lockx ix x) as [ix0 []]; injection E as <- <- <- <-; intros p H; exfalso; [apply (SAME _ p H)|apply (DONE p H)].
+    + injection E as <- <- <- <-. intros p H. exfalso. apply (SAME _ p H).
+    + destruct (unlockx ix x); injection E as <- <- <- <-; intros p H; exfalso; apply (DONE p H).
+    + injection E as <- <- <- <-. intros p H. exfalso. apply (SAME _ p H).
+    + destruct (unlockx ix x); injection E as <- <- <- <-; intros p H; exfalso; apply (DONE p H).
+  - injection E as <- <- <- <-. unfold after_visit, fin_list. cbn [a_cur a_f]. destruct cur; try discriminate.
+    + destruct skip, norel; noinc.
+    + destruct (f_err f); noinc.
+    + destruct glob; noinc.
+  - destruct (f_gl f); injection E as <- <- <- <-; noinc.
+  - unfold acq_id in E. destruct (get ix x) as [td|] eqn:G; [destruct (t_excl td) eqn:X|]; injection E as <- <- <- <-; try noinc.
+    one x p H G X.
+  - injection E as <- <- <- <-; noinc.
+  - destruct (release ix x); injection E as <- <- <- <-; noinc.
+  - destruct cur; try discriminate. destruct (release ix x); injection E as <- <- <- <-; noinc.
 Qed.
